@@ -70,6 +70,11 @@ type Glyph struct {
 	VStem3   bool
 	Segs     []Seg
 	Seac     *Seac
+	// SameAs, if not empty, names an earlier glyph of the font whose
+	// charstring this glyph shares: the entry is written as
+	// `/name /other load def` (one string object under two names).  The
+	// glyph's other fields repeat those of the glyph it names.
+	SameAs string
 }
 
 // Outline returns the path in absolute coordinates, as a decoder following
